@@ -8,6 +8,11 @@ ALL = [f'C{i:02d}' for i in range(1, 21)]
 
 # id -> (level text, level note, technique, design ref)
 CHECKS = {
+    'C07': (
+        'Bounded-exhaustive robustness exploration: all token sequences up to a length bound for 5 entry points, all single (double) token edits of a corpus, all strings up to length 2/3 over 24 awkward characters and every insertion of each into the corpus, nesting shapes to depth 50, each under a termination watchdog with the documented failure classes as oracle; plus explicit-state exploration of all call histories of length <= 3 (4) on one parser object per entry point against a fresh parser.',
+        'Exception messages are compared on their first line (lark prints expected terminals in set order). Inputs longer than the bounds and arbitrary Unicode outside the 24-character alphabet are not explored.',
+        'bounded exhaustive input enumeration + explicit-state call-history exploration against documented outcome classes',
+    ),
     'C01': (
         'Bounded-exhaustive three-way comparison (generator tree / independent reference recursive-descent parser / lifted real AST): all terms up to the node bound in minimal and full parenthesisation through three entry points, the complete property skeleton universe with time bounds and metadata, all layouts with <= d deviations (E5), all token sequences up to a length bound over the full terminal alphabet and all single (double) token edits of a corpus for accept/reject agreement, keyword-prefixed names in every identifier position, and the .lark files against the embedded grammar.',
         'The reference parser (hplmc/ref/parse.py) is the trusted definition of the documented grammar; texts in which an identifier equals a keyword are skipped and counted; an ill-formed text rejected by an earlier type/sanity error is not counted as a violation.',
